@@ -76,13 +76,18 @@ def steps_from_ssa(ssa_path, n):
     return steps
 
 
-def tree_costs(inputs, output, size, steps, sliced=(), projected=()):
-    """steps: list of (parent, left, right) frozensets in execution order."""
+def tree_costs(inputs, output, size, steps, sliced=(), projected=(), leaf_full=False):
+    """steps: list of (parent, left, right) frozensets in execution order.
+    leaf_full: a leaf carries ALL its indices (no single-tensor preprocessing),
+    the convention of the hypergraph-based simulators."""
     n = len(inputs)
     removed = set(sliced) | set(projected)
     full = frozenset(range(n))
 
     def L(g):
+        if leaf_full and len(g) == 1:
+            (t,) = g
+            return [ix for ix in dict.fromkeys(inputs[t]) if ix not in removed]
         if g == full:
             return root_legs(inputs, output, removed)
         return legs_of(g, inputs, output, removed)
